@@ -850,6 +850,9 @@ def report_slug(s):
 def tokenizer(ctx, n, want, label, classes=None, variants=('cb', 'nocb', 'eof'), partition=2, fail_positions=None, multi=None):
     """one next_json_value call on n free bytes (optionally class-restricted per position of the effective input)"""
     run = ctx.run
+    if not hasattr(ctx, '_reader_known'): ctx._reader_known = reader_delivery(ctx)
+    if not ctx._reader_known:
+        run.notes.append(f'tokenizer scenario `{label}` not run: the Reader is outside its model (see tok.delivery)'); return
     tasks = []
     names = [c[0] for c in FIRST_CLASSES]
     configs = multi if multi is not None else [(n, classes)]
@@ -1090,6 +1093,12 @@ def impl_to_py(den):
 
 
 def selfcheck(ctx):
+    if not hasattr(ctx, '_reader_known'): ctx._reader_known = reader_delivery(ctx)
+    if not ctx._reader_known: return
+    return _selfcheck(ctx)
+
+
+def _selfcheck(ctx):
     """concrete execution of the MIR (all inputs fixed) on the repo's own parser test literals, compared with the real binary"""
     from .cli import run_jawk, show
     run = ctx.run
@@ -1121,3 +1130,103 @@ def selfcheck(ctx):
     run.notes.append(f'translator self-check: {n_ok} concrete inputs (json_parser unit-test literals + extras) executed through the MIR and compared with the real binary: all agree')
     run.traces_validated += 0      # counted by run_jawk
     return n_ok
+
+
+# ---------------------------------------------------------------- a reader the tokenizer scenario does not recognise
+def reader_layout_known(ctx):
+    """the scenario models the input as `io::Bytes` pulled one byte at a time by Reader::next; a Reader that buffers on its
+    own (another field layout, other I/O calls) is outside that model"""
+    RDR = ctx.structs.get('Reader') or []
+    if any(f not in RDR for f in ('bytes', 'current_byte', 'location', 'eof')): return False, f'Reader fields are {RDR}'
+    nx = [n for n in ctx.fns if re.search(r'^reader::<impl at [^>]*>::next$', n)]
+    if len(nx) != 1: return False, f'Reader::next bodies: {nx}'
+    calls = [bb.term.data.get('func', '') for bb in (ctx.fns[nx[0]].blocks.values() if isinstance(ctx.fns[nx[0]].blocks, dict) else ctx.fns[nx[0]].blocks) if bb.term.kind == 'call']
+    if not any(re.search(r'Bytes<.*> as Iterator>::next$', c) for c in calls): return False, f'Reader::next does not pull from io::Bytes (calls {[c[-50:] for c in calls][:6]})'
+    io = [c for f in ctx.fns.values() if re.match(r'^reader::<impl at [^>]*>::', f.name) for bb in (f.blocks.values() if isinstance(f.blocks, dict) else f.blocks) if bb.term.kind == 'call'
+          for c in [bb.term.data.get('func', '')] if re.search(r'BufRead>::|Read>::read|read_until|read_line|read_to_end|read_exact|fill_buf|::consume$', c)]
+    if io: return False, f'the reader does its own I/O: {sorted(set(x[-60:] for x in io))[:4]}'
+    return True, ''
+
+
+def delivery_battery(ctx):
+    """how the bytes arrive must not matter: long streams whose tokens straddle every power-of-two block boundary at several
+    alignments (stdin and file), delivery in chunks of 1 / 2 / 7 / 4096 bytes, an endless stream without line breaks under
+    --take, locations on a very long line. Expected values come from the token list itself. Returns the first disagreement."""
+    import subprocess, tempfile, random
+    from .cli import run_driver, show
+    exe = ctx.tree.binary()
+    rng = random.Random(7)
+    toks = []
+    for i in range(9000):
+        k = i % 9
+        if k == 0: v = rng.randrange(10 ** rng.randrange(1, 13))
+        elif k == 1: v = -rng.randrange(1, 10 ** 9)
+        elif k == 2: v = rng.randrange(10 ** 6) + rng.randrange(1, 1000) / 1000.0
+        elif k == 3: v = 's' * rng.randrange(0, 9) + 'é' * (i % 3) + '"\\'[i % 2] + str(i)
+        elif k == 4: v = [i, str(i), None]
+        elif k == 5: v = {'k' + str(i): [True, False], 'n': i * 1000003}
+        elif k == 6: v = True if i % 2 else None
+        elif k == 7: v = float(rng.randrange(1, 10 ** 5)) * 1e10
+        else: v = 10 ** (i % 18)
+        toks.append(v)
+    texts = [json.dumps(v, ensure_ascii=bool(i % 2)) for i, v in enumerate(toks)]
+    def rows(out):
+        vals = []
+        for ln in show(out).splitlines():
+            try: vals.append(json.loads(ln))
+            except Exception: vals.append('unparsable:' + ln[:40])
+        return vals
+    def same(a, b):
+        if len(a) != len(b): return False
+        return all(x == y or (isinstance(x, float) and isinstance(y, (int, float)) and float(y) == x) or (isinstance(y, float) and isinstance(x, int) and float(x) == y) for x, y in zip(a, b))
+    with tempfile.TemporaryDirectory() as td:
+        for pad in (0, 1, 2, 3, 5, 7):
+            data = (b' ' * pad) + ' '.join(texts).encode('utf-8')
+            for via in ('stdin', 'file'):
+                if via == 'stdin': r = subprocess.run([exe, '--style', 'consise'], input=data, stdout=subprocess.PIPE, stderr=subprocess.PIPE, timeout=120)
+                else:
+                    p = os.path.join(td, 'long.json'); open(p, 'wb').write(data)
+                    r = subprocess.run([exe, '--style', 'consise', p], stdout=subprocess.PIPE, stderr=subprocess.PIPE, timeout=120)
+                got = rows(r.stdout)
+                if r.returncode != 0 or not same(got, toks):
+                    k = next((i for i, (x, y) in enumerate(zip(got, toks)) if x != y and not (isinstance(y, float) and float(x) == y if isinstance(x, (int, float)) else False)), min(len(got), len(toks)))
+                    return {'what': f'{len(toks)} values in {len(data)} bytes on one line, {pad} leading blanks, via {via}', 'rc': r.returncode, 'rows': len(got), 'expected_rows': len(toks), 'first_differing_value': k,
+                            'expected': repr(toks[k])[:80] if k < len(toks) else None, 'actual': repr(got[k])[:80] if k < len(got) else None, 'byte_offset_about': len(' '.join(texts[:k]).encode()) + pad}
+    small = ' '.join(texts[:400]).encode('utf-8'); base = None
+    for chunk in (1, 2, 7, 4096):
+        r = run_driver(ctx, ['--style', 'consise'], small, env={'READ_CHUNK': str(chunk)}, timeout=60)
+        if base is None: base = (r['stdout'], r['result'])
+        if (r['stdout'], r['result']) != base or not same(rows(r['stdout']), toks[:400]):
+            return {'what': f'the same {len(small)} bytes delivered {chunk} bytes per read call', 'result': r['result'], 'rows': len(rows(r['stdout'])), 'expected_rows': 400}
+    for chunk in (1, 4096):
+        r = run_driver(ctx, ['--style', 'consise', '--take', '3'], b'{"n":1} ', env={'ENDLESS': '1', 'ENDLESS_LIMIT': '3000000', 'READ_CHUNK': str(chunk)}, timeout=60)
+        if r['result'] != 'ok' or len(rows(r['stdout'])) != 3 or (chunk == 1 and (r['pulled'] or 0) > 64):
+            return {'what': f'an endless stream without a line break, --take 3, {chunk} bytes per read call', 'result': r['result'], 'pulled': r['pulled'], 'rows': len(rows(r['stdout']))}
+    line = ' '.join(texts[:3000]).encode('utf-8')
+    r = run_driver(ctx, ['--style', 'consise', '--select', '&ended-at-char-number=e', '--select', '&started-at-line-number=l'], line, env={'READ_CHUNK': '4096'}, timeout=60)
+    got = rows(r['stdout']); pos = 1; exp = []
+    for t in texts[:3000]:
+        pos += len(t.encode('utf-8')) + 1; exp.append(pos)
+    ge = [g.get('e') if isinstance(g, dict) else None for g in got]
+    if r['result'] != 'ok' or len(ge) != 3000 or any(abs((a or 0) - b) > 1 for a, b in zip(ge, exp)) or any((g.get('l') if isinstance(g, dict) else None) != 1 for g in got):
+        k = next((i for i, (a, b) in enumerate(zip(ge, exp)) if abs((a or 0) - b) > 1), None)
+        return {'what': 'end columns of 3000 values on one long line', 'result': r['result'], 'first_wrong': k, 'expected': exp[k] if k is not None else None, 'actual': ge[k] if k is not None else None}
+    return None
+
+
+def reader_delivery(ctx, fam_name='tok.delivery'):
+    """called by the properties that rest on the tokenizer scenarios when the Reader is not the one the scenarios model"""
+    run = ctx.run
+    known, why = reader_layout_known(ctx)
+    fam = run.family(fam_name, 'the reader pulls its input one byte at a time through io::Bytes, so how the bytes are delivered (block sizes, line breaks, an endless stream) cannot matter; a reader that buffers on its own is outside the tokenizer model and is confronted with the delivery battery')
+    fam.need_witness = False
+    fam.obligations += 1
+    if known:
+        fam.discharged += 1; fam.add_sample({'premise': 'Reader { bytes: io::Bytes<R>, current_byte, location, eof }, Reader::next pulls from Bytes::next and nothing else reads', 'verdict': 'delivery-independent by construction'})
+        return True
+    c = Candidate(fam_name, 'reader-layout', f'the Reader is not the byte-at-a-time reader the tokenizer scenarios model ({why}); what it does with block boundaries, line breaks and endless input is undecided here', {'why': why}, unmodelled='Reader layout: ' + why[:80])
+    bad = delivery_battery(ctx)
+    if bad: c.status = 'reproduced'; c.replay = bad; c.unmodelled = None; c.text += ' - the delivery battery shows: ' + bad['what']
+    else: c.status = 'inconclusive'
+    fam.candidates.append(c)
+    return False
